@@ -518,3 +518,67 @@ func (g *Gen) shapeSafe(i int) (ds []int) {
 	}()
 	return g.env[i].t.Shape()
 }
+
+// interfere: use x as an operand of a few other operations first (results discarded).  A later operation on x
+// must not be affected by what was done with x before (memoised values, dims slices written in place by a
+// shape helper, cached rows, ...): in the model x is an immutable value.
+func (g *Gen) interfere(x int) {
+	if !g.isT(x) {
+		return
+	}
+	n := 1 + g.intn(3)
+	for i := 0; i < n; i++ {
+		ds := g.shapeSafe(x)
+		r := len(ds)
+		switch g.intn(9) {
+		case 0, 1:
+			if r >= 2 && prod(ds) <= 200 {
+				// right operand of lower or equal rank whose batch dims are covered by x's; k <= n (<= m often)
+				nn := ds[r-1]
+				k := 1 + g.intn(nn)
+				rb := g.intn(r - 1) // number of batch dims of the right operand
+				ws := append([]int{}, ds[r-2-rb:r-2]...)
+				for j := range ws {
+					if g.chance(0.3) {
+						ws[j] = 1
+					}
+				}
+				ws = append(ws, nn, k)
+				w := g.leafDistinct(ws, false, -1, 1)
+				g.do(Cmd{Op: OpMatMul, T: x, U: T(w)})
+				g.tag("interfere-matmul")
+			} else if r >= 1 {
+				v := g.leafDistinct([]int{ds[r-1]}, false, -1, 1)
+				g.do(Cmd{Op: OpDot, T: x, U: T(v)})
+			}
+		case 2:
+			if r >= 2 {
+				g.do(Cmd{Op: OpTranspose, T: x})
+			}
+		case 3:
+			if r >= 1 {
+				g.do(Cmd{Op: OpAlong, K: g.intn(7), T: x, Z: g.intn(r)})
+			}
+		case 4:
+			g.do(Cmd{Op: OpReduce, K: g.intn(7), T: x})
+		case 5:
+			g.do(Cmd{Op: OpUnsqueeze, T: x, Z: g.intn(r + 1)})
+			if r >= 1 {
+				g.do(Cmd{Op: OpFlatten, T: x, Z: g.intn(r)})
+			}
+		case 6:
+			if prod(ds) <= 100 {
+				g.do(Cmd{Op: OpBroadcast, T: x, Dims: g.bcastTarget(ds)})
+			}
+		case 7:
+			if r >= 1 {
+				src, pidx := g.patchArgs(ds)
+				p := g.leafDistinct(src, false, 30, 40)
+				g.do(Cmd{Op: OpPatch, T: x, Ranges: pidx, U: T(p)})
+			}
+		default:
+			g.do(Cmd{Op: OpBin, K: 8 + g.intn(4), T: x, U: T(x)})
+		}
+	}
+	g.tag("interference-prefix")
+}
